@@ -169,6 +169,7 @@ ENGINE_MC = [("EngineMC", "EngineMC.cfg", "hold", ("quick", "thorough")),
              ("EngineMC", "EngineMC_live.cfg", "hold", ("quick", "thorough")),               # liveness: Check terminates without a time limit
              ("EngineMC", "EngineMC_live_broken.cfg", "violate", ("quick", "thorough")),
              ("EngineMC", "EngineMC_explicit_broken.cfg", "violate", ("quick", "thorough")),
+             ("EngineMC", "EngineMC_early_broken.cfg", "violate", ("quick", "thorough")),
              ("EngineMC", "EngineMC_big.cfg", "hold", ("thorough",))]
 
 
